@@ -109,7 +109,8 @@ pub fn run_job(job: &Job) -> Value {
         }
     };
     // the input bytes travel to TLC only where the entropy model applies (no mutators, moderate size)
-    let with_inp = job.mode == "bytes" && job.cfg.muts.is_empty() && input.len() <= 4096 && job.warm == 0 && job.force.is_empty();
+    let safe_extreme = !job.cfg.unsafe_ && !job.cfg.mut_unsafe && job.cfg.rate_special.is_empty() && (job.cfg.rate <= 0.0 || job.cfg.rate >= 1.0);
+    let with_inp = job.mode == "bytes" && (job.cfg.muts.is_empty() || safe_extreme) && input.len() <= 4096 && job.warm == 0 && job.force.is_empty();
     let evj: Vec<Value> = ev.iter().map(|e| event_json(e, &order)).collect();
     json!({
         "id": job.id,
